@@ -39,6 +39,7 @@ EXPLANATION = ("Theorems (all integers, no size bound): for reduced operands eve
                "execution printing numerator()/denominator() as stored after every step.")
 ASSUMPTIONS = ["dashu-int Gcd::gcd, *, +, -, /, %, div_euclid, rem_euclid, trailing_zeros, >>, pow meet their contracts (C01, C02, C09, C12)"]
 THEOREMS = []  # filled from the audit (every theorem printed there is counted)
+READY = True
 
 
 def nontrivial(c):
@@ -312,16 +313,16 @@ def gen_prog(rng, tier):
 def generate(rng, tier):
     quick = tier == "quick"
     # ---- binary ops on related pairs
-    for _ in range(900 if quick else 30000):
+    for _ in range(3000 if quick else 90000):
         (a, b), (c, d) = related_pair(rng, tier)
         k = rng.choice("RRX")
         op = rng.choice(BIN + ["diveuclid", "divremeuclid"])
         yield Case("q." + op, [q(a, b, k), q(c, d, k)])
-    for _ in range(150 if quick else 4000):
+    for _ in range(400 if quick else 12000):
         (a, b), (c, d) = related_pair(rng, tier)
         yield Case("rx." + rng.choice(BIN), [q(a, b, "R"), q(c, d, "R")])
     # ---- unary
-    for _ in range(350 if quick else 8000):
+    for _ in range(1000 if quick else 25000):
         a, b = frac(rng, tier)
         k = rng.choice("RX")
         op = rng.choice(UN + ["relax", "canon", "split", "trunc", "floor", "ceil", "round", "pow", "mulsign"])
@@ -339,7 +340,7 @@ def generate(rng, tier):
         else:
             yield Case("q." + op, [q(a, b, k)])
     # ---- mixed with integers
-    for _ in range(350 if quick else 8000):
+    for _ in range(1000 if quick else 25000):
         a, b = frac(rng, tier)
         k = rng.choice("RX")
         op = rng.choice(INTOPS)
@@ -361,7 +362,7 @@ def generate(rng, tier):
         else:
             yield Case("q.z%s" % op, [lit, q(a, b, k)])
     # ---- constructors
-    for _ in range(150 if quick else 3000):
+    for _ in range(400 if quick else 10000):
         a, b = frac(rng, tier)
         k = rng.choice("RX")
         r = rng.random()
@@ -382,7 +383,7 @@ def generate(rng, tier):
                 d = 0
             yield Case("q.frompartsconst", [rng.choice("+-"), "%x" % n, "%x" % d, k])
     # ---- register programs
-    for _ in range(400 if quick else 12000):
+    for _ in range(1200 if quick else 40000):
         yield gen_prog(rng, tier)
 
 
